@@ -1,0 +1,6 @@
+//! Verification façade (feature `verif`, off by default): re-exports of
+//! otherwise private entry points so an external harness can drive them
+//! one step at a time. Nothing here changes behaviour.
+
+pub use crate::agent::verif_reexport::*;
+pub use crate::api::peer::verif_reexport::*;
